@@ -36,9 +36,9 @@ def handler : Handler := fun op inp out =>
         | none => (m, fail "no-symbol-returned")
         | some c => (m, check (clauses2d (specG s) (some (specG c))))
   | "ptc" | "ptc_corpus" | "ptc_nomodel" =>
-    match run (do let h ← P.nat; let s ← P.rawSym; let e ← P.atEnd; if e then pure (h, s) else failure) inp with
+    match run (do let s ← P.rawSym; let e ← P.atEnd; if e then pure s else failure) inp with
     | none => bad
-    | some (hflag, s) =>
+    | some s =>
       let m := if op == "ptc_nomodel" then "-" else
         modelStr (fun (o : Option DSymData) => match o with
           | some c => "1 " ++ encSym c
@@ -47,20 +47,7 @@ def handler : Handler := fun op inp out =>
         | .err => .err
         | .panic => .panic)
       let corpus := op == "ptc_corpus"
-      -- hypotheses of the theorems of Props/C15 §4–§6, evaluated on the model's own run
-      let monitor : List (String × Bool) :=
-        if op == "ptc_nomodel" then [] else
-        match symOf s with
-        | .ok d =>
-          (match orientedCover d with
-           | .ok oc =>
-             (match FG.fundamentalGroup oc with
-              | .ok fg => [("harness-error-theorem-hypothesis-flag-disagrees-with-the-monitor",
-                  groupOkB fg.genToEdge.length fg.relators fg.cones == (hflag == 1))]
-              | _ => [])
-           | _ => [])
-        | _ => []
-      if isPanic out then (m, check (clauses3d (specG s) none corpus ++ monitor))
+      if isPanic out then (m, check (clauses3d (specG s) none corpus))
       else
         match run (do
             let f ← P.nat
@@ -72,7 +59,7 @@ def handler : Handler := fun op inp out =>
               let e ← P.atEnd
               if e then pure (some c) else failure) out with
         | none => (m, fail "no-answer-returned")
-        | some o => (m, check (clauses3d (specG s) (some (o.map specG)) corpus ++ monitor))
+        | some o => (m, check (clauses3d (specG s) (some (o.map specG)) corpus))
   | "ptcinv" =>
     match run (do let k ← P.nat; let vs ← P.rep (k + 2) P.rawSym; let e ← P.atEnd; if e then pure vs else failure) inp with
     | none => bad
